@@ -89,6 +89,11 @@ func shapes() []shape {
 		{"empty-struct", "Empty§", "type Empty§ struct{}\n", nil},
 		{"uintptr", "uintptr", "", nil},
 		{"rune-and-byte", "rune", "", nil},
+		// enums written in unusual but legal ways
+		{"enum-with-aliased-constants", "EDup§", "type EDup§ string\n\nconst (\n\tEDup§A EDup§ = \"a\"\n\tEDup§B EDup§ = \"b\"\n\tEDup§Default EDup§ = EDup§A\n\tEDup§Also EDup§ = \"b\"\n)\n", nil},
+		{"enum-int-with-equal-values", "EEq§", "type EEq§ int\n\nconst (\n\tEEq§One EEq§ = 1\n\tEEq§Uno EEq§ = 1\n\tEEq§Two EEq§ = 2\n)\n", nil},
+		{"enum-without-constants", "ENo§", "type ENo§ string\n\nvar ENo§Default ENo§ = \"x\"\n", nil},
+		{"enum-single-constant", "EOne§", "type EOne§ string\n\nconst EOne§Only EOne§ = \"only\"\n", nil},
 	}
 }
 
@@ -152,7 +157,8 @@ func shapeInputs(tier string) []input {
 func annotationInputs(tier string) []input {
 	lines := []string{
 		"// @Query(a, {name:})", "// @Query(a, {name}", "// @Query(a, {name: \"x\"", "// @Query(a, {name: \"x\"}}", "// @Query(a, {\"name\": [1,2})", "// @Query(, {})",
-		"// @Query()", "// @Query(a,)", "// @Query(a b c)", "// @Security(s1, { scopes: \"notalist\" })", "// @Security(s1, { scopes: [1, 2] })", "// @Security(, { scopes: [] })",
+		"// @Query()", "// @Query(a,)", "// @Query(a b c)", "// @Security(s1, { scopes: \"notalist\" })", "// @Security(s1, { scopes: [1, 2] })", "// @Security(, { scopes: [] })", "// @Security(s1, { scopes: [null] })", "// @Security(s1, { scopes: null })", "// @Security(s1, { scopes: [\"a\", null] })", "// @Security(s1, { scopes: {} })", "// @Security(s1, null)",
+		"// @Query(a, { name: null })", "// @Query(a, { validate: null })", "// @Query(a, { name: [\"x\"] })", "// @Query(a, { validate: 5 })", "// @Query(a, { name: {} })", "// @Route(/x, { a: null })", "// @Tag(T, null)",
 		"// @Response(abc)", "// @Response(99999999999999999999)", "// @Response(-1)", "// @ErrorResponse(4xx)", "// @ErrorResponse()", "// @Method()", "// @Method(GET, {x: 1})",
 		"// @Route()", "// @Route({)", "// @Route(/a/{)", "// @Route(/a/{}/b)", "// @Route(/{a}{b})", "// @TemplateContext(X, {a: 1})", "// @TemplateContext(X, {a: 1}) again", "// @Unknown(thing)",
 		"// @Hidden(CONDITION, { env: { var: 1 } })", "// @Deprecated({)", "// @Tag()", "// @Description", "// @Path(p, { name: 5 })", "// @Path(p, { validate: 5 })", "// @Header(p, { name: null })",
@@ -197,7 +203,7 @@ func annotationInputs(tier string) []input {
 
 func validatorInputs(tier string) []pairCase {
 	rules := []string{"gt", "gte", "lt", "lte", "min", "max", "len", "minItems", "maxItems", "uniqueItems", "pattern", "enum", "oneof", "email", "required", "eq", "dive", "unknownrule"}
-	args := []struct{ name, text string }{{"no-value", ""}, {"empty", "="}, {"non-numeric", "=abc"}, {"negative", "=-5"}, {"huge", "=99999999999999999999999"}, {"float", "=1.5"}, {"spaces", "= 3"}}
+	args := []struct{ name, text string }{{"no-value", ""}, {"empty", "="}, {"non-numeric", "=abc"}, {"negative", "=-5"}, {"huge", "=99999999999999999999999"}, {"float", "=1.5"}, {"spaces", "= 3"}, {"repeated-values", "=a b a"}, {"repeated-numbers", "=2 2 1"}, {"pipes-repeated", "=a|b|a"}}
 	kinds := []struct{ name, goType string }{{"string", "string"}, {"int", "int"}, {"float64", "float64"}, {"bool", "bool"}, {"[]string", "[]string"}, {"struct", "VS§"}}
 	sitesV := []string{"field", "query", "body"}
 	var out []pairCase
@@ -265,7 +271,7 @@ func validatorPairCases(tier string) []pairCase {
 			atoms = append(atoms, r+a)
 		}
 	}
-	atoms = append(atoms, "required", "email", "omitempty", "dive")
+	atoms = append(atoms, "required", "email", "omitempty", "dive", "oneof=a b a", "oneof=2 1 2", "enum=a|b|a")
 	kinds := []struct{ name, goType string }{{"string", "string"}, {"int", "int"}, {"[]string", "[]string"}}
 	if tier == "thorough" {
 		kinds = append(kinds, struct{ name, goType string }{"float64", "float64"}, struct{ name, goType string }{"*string", "*string"})
@@ -645,7 +651,7 @@ func Main(tier, replay string) {
 		run.Sample(map[string]any{"id": inputs[0].ID, "features": inputs[0].Feat})
 		run.Sample(map[string]any{"id": inputs[len(inputs)-1].ID, "features": inputs[len(inputs)-1].Feat})
 	}
-	run.Bound = fmt.Sprintf("%d inputs: %d type shapes x %d usage sites; malformed annotation lines x positions; 18 validator rules x 7 argument forms x kinds x sites and every ordered pair of 40 (rule, argument) atoms on string/int/[]string fields and query parameters under both OpenAPI versions (packed, bisected on any non-zero exit); configuration mutations (truncations, documents of the wrong JSON kind, every section/field set to each JSON kind or deleted, hostile paths/templates); x commands {spec-and-routes, spec, routes, dump graph, bare root, spec as 3.1.0} where applicable", len(inputs), len(shapes()), len(sites))
+	run.Bound = fmt.Sprintf("%d inputs: %d type shapes x %d usage sites; malformed annotation lines x positions; 18 validator rules x 10 argument forms x kinds x sites and every ordered pair of 43 (rule, argument) atoms on string/int/[]string fields and query parameters under both OpenAPI versions (packed, bisected on any non-zero exit); configuration mutations (truncations, documents of the wrong JSON kind, every section/field set to each JSON kind or deleted, hostile paths/templates); x commands {spec-and-routes, spec, routes, dump graph, bare root, spec as 3.1.0} where applicable", len(inputs), len(shapes()), len(sites))
 	run.Rule = "state = one (input project/config, command); transition = one run of the real CLI binary in a fresh process; validated = runs whose exit status, output (panic traces), wall time and artifacts were judged"
 	run.Assumptions = []string{"horizon 90 s (re-run with 180 s before a timeout counts); the median run takes well under 2 s", "a [FATAL] log line alone is not a failure"}
 	os.RemoveAll(scratch)
